@@ -74,6 +74,16 @@ def api(label, fn, *args, **kwargs):
                                                       str(ex)[:200], where))
 
 
+def _quiet():
+    """pysmt.shortcuts re-enables warnings for pysmt modules when it is imported:
+    import it first, then silence (deprecation notices are not findings)"""
+    try:
+        import pysmt.shortcuts  # noqa
+    except Exception:
+        pass
+    warnings.simplefilter("ignore")
+
+
 def load(pid):
     return importlib.import_module("props.%s" % pid.lower())
 
@@ -91,7 +101,7 @@ def digest_of(obj):
 def run_once(mod, plan, sched):
     """execute (plan, sched tape list or Tape) -> ("ok", info) | ("viol", sig, msg, tape)"""
     tape = sched if isinstance(sched, Tape) else Tape(replay=sched)
-    warnings.simplefilter("ignore")     # pysmt.shortcuts re-enables warnings at import
+    _quiet()
     gc_control = getattr(mod, "GC_CONTROL", False)
     if gc_control:
         # finalisers of simulated streams must never run at an allocation-dependent
